@@ -1,1 +1,6 @@
-//! shared helpers
+//! Shared rig for the iroh-dns-server monitors (C36–C39): own DNS wire codec, hand-signed
+//! pkarr packets + reference model, and the real server on loopback with plain clients.
+
+pub mod model;
+pub mod rig;
+pub mod wire;
